@@ -258,9 +258,9 @@ func (mc *c16Machine) checkConflicts(t *rapid.T, reps int) {
 	docs := []pair{{"psa-profile", P1Name, "eat-profile", P2Name}}
 	for _, n := range c16DynNames {
 		switch mc.reg[n] {
-		case "ext-p2", "two-embedded-p2", "label-then-p2", "both-keys-p2":
+		case "ext-p2", "two-embedded-p2", "label-then-p2", "both-keys-p2", "iface-on-p2":
 			docs = append(docs, pair{"eat-profile", n, "psa-profile", P1Name})
-		case "ext-p1":
+		case "ext-p1", "iface-on-p1":
 			docs = append(docs, pair{"psa-profile", n, "eat-profile", P2Name})
 		case "own-tag":
 			docs = append(docs, pair{"x-profile", n, "psa-profile", P1Name}, pair{"x-profile", n, "eat-profile", P2Name})
@@ -297,12 +297,12 @@ func (mc *c16Machine) checkConflicts(t *rapid.T, reps int) {
 	}
 	for _, n := range c16DynNames {
 		switch mc.reg[n] {
-		case "ext-p2", "two-embedded-p2", "label-then-p2", "both-keys-p2":
+		case "ext-p2", "two-embedded-p2", "label-then-p2", "both-keys-p2", "iface-on-p2":
 			lones = append(lones, lone{"psa-profile", n})
 			if hasOwnTag {
 				lones = append(lones, lone{"x-profile", n})
 			}
-		case "ext-p1":
+		case "ext-p1", "iface-on-p1":
 			lones = append(lones, lone{"eat-profile", n})
 			if hasOwnTag {
 				lones = append(lones, lone{"x-profile", n})
@@ -530,7 +530,7 @@ func c16Run(t *rapid.T, st *Stats) {
 				continue
 			}
 			name := rapid.SampledFrom(free).Draw(t, "name")
-			shape := rapid.SampledFrom([]string{"ext-p2", "ext-p1", "own-tag", "two-embedded-p2", "label-then-p2", "both-keys-p2"}).Draw(t, "shape")
+			shape := rapid.SampledFrom([]string{"ext-p2", "ext-p1", "own-tag", "two-embedded-p2", "label-then-p2", "both-keys-p2", "iface-on-p2", "iface-on-p1", "iface-on-p1"}).Draw(t, "shape")
 			kind := rapid.IntRange(0, 3).Draw(t, "profile.kind")
 			mc.log("Register(%s as %s, %T)", name[len(name)-5:], shape, c16Profile(name, shape, kind))
 			if err, pmsg := c16Register(c16Profile(name, shape, kind)); err != nil || pmsg != "" {
@@ -588,7 +588,7 @@ func c16Run(t *rapid.T, st *Stats) {
 			}
 			sortStrings(pool)
 			name := rapid.SampledFrom(pool).Draw(t, "name")
-			shape := rapid.SampledFrom([]string{"ext-p2", "ext-p1", "own-tag", "two-embedded-p2", "label-then-p2", "both-keys-p2"}).Draw(t, "shape")
+			shape := rapid.SampledFrom([]string{"ext-p2", "ext-p1", "own-tag", "two-embedded-p2", "label-then-p2", "both-keys-p2", "iface-on-p2", "iface-on-p1", "iface-on-p1"}).Draw(t, "shape")
 			// the same kind of IProfile value as the first registration of
 			// that name used (same Go type), or another one
 			kind := rapid.IntRange(0, 3).Draw(t, "profile.kind")
@@ -605,7 +605,7 @@ func c16Run(t *rapid.T, st *Stats) {
 			mc.checkAll(t)
 		case "register-bad-shape":
 			name := rapid.SampledFrom(c16DynNames).Draw(t, "name")
-			shape := rapid.SampledFrom([]string{"no-profile-field", "no-json-tag", "lookalike-keys", "lookalike-names", "profile-cbor-dash", "profile-cbor-empty-key"}).Draw(t, "shape")
+			shape := rapid.SampledFrom([]string{"no-profile-field", "no-json-tag", "lookalike-keys", "lookalike-names", "profile-cbor-dash", "profile-cbor-empty-key", "iface-on-nothing", "iface-on-nothing"}).Draw(t, "shape")
 			mc.log("Register(%s as %s)", name[len(name)-5:], shape)
 			if err, pmsg := c16Register(c16Profile(name, shape, rapid.IntRange(0, 3).Draw(t, "profile.kind"))); pmsg != "" {
 				mc.fail(t, "registering a profile whose claims type has no identifiable profile field (%s) PANICS: %s", shape, pmsg)
@@ -736,7 +736,7 @@ func sortStrings(s []string) {
 }
 
 func TestC16_RegistryHistories(t *testing.T) {
-	st := NewStats("C16", "TestC16_RegistryHistories", "rapid state machine, every history starting from the pristine register (checkpoint hook), 1..30 steps over {Register(new name) as extension-of-P2 (shares eat-profile) / extension-of-P1 (shares psa-profile) / own JSON member; Register(existing name: built-in, the default entry, previously added); Register(claims type without profile field / without json tag); NewClaims(name); Decode CBOR/JSON of a token declaring name, repeated 32x; Mutate(instance k) through every setter, through every exported pointer/slice in place, through returned component objects and the container; Probe}. 0..8 extra profiles. Oracle: model register name->shape; after every registration (successful or not) the complete probe battery (NewClaims, CBOR decode, JSON decode for 12 names: type, reported profile, validity) must equal the model's expectation: unchanged for every name not registered by this step; every created/decoded instance has a deep fingerprint equal to the first one obtained the same way and is never the same object as another; after every step every untouched instance's fingerprint is unchanged; repeated JSON dispatch gives one outcome (also for documents carrying a member that differs from a profile member only in letter case, with another value), a token whose label 265 is written in a longer spelling declares the same profile if it decodes at all, and a document naming two different registered profiles is rejected on each of 32 calls. Non-trivial = history contains a failed registration or a mutate followed by a create/decode; distinct = history")
+	st := NewStats("C16", "TestC16_RegistryHistories", "rapid state machine, every history starting from the pristine register (checkpoint hook), 1..30 steps over {Register(new name) as extension-of-P2 (shares eat-profile) / extension-of-P1 (shares psa-profile) / own JSON member / ONE claims type that embeds the base through the IClaims interface, on a profile-2 or a profile-1 base (the profile member follows the plugged-in value, not the Go type) and, unregistrable, on nothing; Register(existing name: built-in, the default entry, previously added); Register(claims type without profile field / without json tag); NewClaims(name); Decode CBOR/JSON of a token declaring name, repeated 32x; Mutate(instance k) through every setter, through every exported pointer/slice in place, through returned component objects and the container; Probe}. 0..8 extra profiles. Oracle: model register name->shape; after every registration (successful or not) the complete probe battery (NewClaims, CBOR decode, JSON decode for 12 names: type, reported profile, validity) must equal the model's expectation: unchanged for every name not registered by this step; every created/decoded instance has a deep fingerprint equal to the first one obtained the same way and is never the same object as another; after every step every untouched instance's fingerprint is unchanged; repeated JSON dispatch gives one outcome (also for documents carrying a member that differs from a profile member only in letter case, with another value), a token whose label 265 is written in a longer spelling declares the same profile if it decodes at all, and a document naming two different registered profiles is rejected on each of 32 calls. Non-trivial = history contains a failed registration or a mutate followed by a create/decode; distinct = history")
 	st.Require = []string{"failed-registration", "mutate-then-read", "registered=0", "registered=1", "registered=3", "nested-registration", "two-embedded-shape", "faulty-factory"}
 	defer st.Flush(t)
 	registerMu.Lock()
